@@ -1214,6 +1214,14 @@ def atoms_of(s: S, pred: Callable[[S], bool]) -> list[S]:
 
 
 # ------------------------------------------------------------------ involution
+def _has_bound(s: S) -> bool:
+    if isinstance(s, tuple):
+        if len(s) == 3 and s[0] == "b" and isinstance(s[1], int):
+            return True
+        return any(_has_bound(x) for x in s)
+    return False
+
+
 def _shift_bound(s: S, by: int) -> S:
     """bound-variable references of a term that is moved ``by`` comprehension levels inwards"""
     if isinstance(s, tuple):
@@ -1296,7 +1304,8 @@ class Sigma:
             return s
         if self.raw_subst and s in self.raw_subst:
             return self.raw_subst[s]
-        if self.raw_subst and s[0] in ("comp", "lambda") and any(isinstance(k, tuple) and k[:1] == ("b",) for k in self.raw_subst):
+        if self.raw_subst and s[0] in ("comp", "lambda") and (any(isinstance(k, tuple) and k[:1] == ("b",) for k in self.raw_subst) or
+                                                              any(_has_bound(v) for v in self.raw_subst.values())):
             # inside a nested comprehension / lambda the variables of the enclosing one are one level further away
             inner = copy_sigma(self, {(("b", k[1] + 1, k[2]) if isinstance(k, tuple) and k[:1] == ("b",) else k): _shift_bound(v, 1)
                                       for k, v in self.raw_subst.items()})
@@ -1629,7 +1638,7 @@ class Normalizer:
         def fresh():
             nums[0] += 1
             return ("v", 500 + nums[0])
-        block = _index_loops(_param_versions(_if_convert(_ret_peephole(_unfold_list_comps(raw_block, fresh)))))
+        block = _index_loops(_param_versions(_if_convert(_ret_peephole(_query_loops(_unfold_list_comps(raw_block, fresh))))))
         defs = single_defs(block, keep_identity)
         for _ in range(6):
             if not defs:
@@ -1693,6 +1702,20 @@ def _if_convert(block: tuple) -> tuple:
         if isinstance(st, tuple) and st:
             if st[0] == "if" and len(st) == 4:
                 st = ("if", st[1], _if_convert(st[2]), _if_convert(st[3]))
+                # 'if c: f(x, A) else: f(x, B)'  ==  'f(x, A if c else B)': the same call made in both arms with some arguments differing
+                if len(st[2]) == 1 and len(st[3]) == 1 and st[2][0][0] == st[3][0][0] == "expr":
+                    ca, cb = st[2][0][1], st[3][0][1]
+
+                    def merge(x, y):
+                        if x == y:
+                            return x
+                        if isinstance(x, tuple) and isinstance(y, tuple) and x and y and x[0] == y[0] == "c" and x[1] == y[1] \
+                                and len(x[2]) == len(y[2]) and [k for k, _ in x[3]] == [k for k, _ in y[3]]:
+                            return ("c", x[1], tuple(merge(p_, q_) for p_, q_ in zip(x[2], y[2])), tuple((k, merge(v, w)) for (k, v), (_, w) in zip(x[3], y[3])))
+                        return mk_ite(st[1], x, y)
+                    if isinstance(ca, tuple) and isinstance(cb, tuple) and ca[:1] == cb[:1] == ("c",) and ca[1] == cb[1] and len(ca[2]) == len(cb[2]) and ca != cb:
+                        out.append(("expr", merge(ca, cb)))
+                        continue
                 if only_sets(st[2]) and only_sets(st[3]):
                     a, b = arm_env(st[2]), arm_env(st[3])
                     if set(a) == set(b):
@@ -1726,6 +1749,33 @@ def _if_convert(block: tuple) -> tuple:
             elif st[0] == "with" and len(st) == 3:
                 st = ("with", st[1], _if_convert(st[2]))
         out.append(st)
+    return tuple(out)
+
+
+def _query_loops(block: tuple) -> tuple:
+    """a search loop that answers with constants -- ``for v in it: if c: return True`` followed by ``return False`` -- is
+    ``return any(c for v in it)`` (and the dual is ``all``)"""
+    out = list(block)
+    for k in range(len(out) - 1):
+        lp, last = out[k], out[k + 1]
+        if not (isinstance(lp, tuple) and lp[:1] == ("for",) and len(lp) == 5 and not lp[4] and isinstance(last, tuple) and last[:1] == ("ret",)
+                and last[1] in (K_TRUE, K_FALSE) and k + 2 == len(out)):
+            continue
+        body = lp[3]
+        if len(body) != 1 or body[0][0] != "if" or len(body[0]) != 4 or body[0][3] or len(body[0][2]) != 1:
+            continue
+        hit = body[0][2][0]
+        if not (hit[0] == "ret" and hit[1] in (K_TRUE, K_FALSE) and hit[1] != last[1]):
+            continue
+        var = lp[1]
+        if not (isinstance(var, tuple) and var[:1] == ("v",)):
+            continue
+        cond = body[0][1]
+        b0 = ("b", 1, 0)
+        elt = Sigma(raw_subst={var: b0}).apply(cond if hit[1] == K_TRUE else mk_not(cond))
+        fn = ("g", "any") if hit[1] == K_TRUE else ("g", "all")
+        out[k:k + 2] = [("ret", ("c", fn, (("comp", "gen", (elt,), ((b0, lp[2], K_TRUE),)),), ()))]
+        break
     return tuple(out)
 
 
